@@ -62,6 +62,42 @@ func vfE8OwnLines(tree map[string][]byte, finished [][]byte) []string {
 	return missing
 }
 
+// vfE8OwnRecords is the exact form of the oracle for bodies that may be empty or contain "\n": every finished body
+// (in write order - the scenarios use max-in-flight 1, so FIN order = write order) must occur as `body+"\n"` at a line
+// start (offset 0 or right behind a "\n") of some file, behind the record assigned to the previous one in that file
+// (single appending writer: records appear in write order, so the greedy left-to-right assignment is complete).
+// Returns the bodies without a record of their own.
+func vfE8OwnRecords(tree map[string][]byte, finished [][]byte) []string {
+	cursor := map[string]int{}
+	var names []string
+	for n := range tree {
+		names = append(names, n)
+	}
+	sort.Strings(names)
+	var missing []string
+	for _, b := range finished {
+		rec := append(append([]byte{}, b...), '\n')
+		found := false
+		for _, n := range names {
+			c := tree[n]
+			for o := cursor[n]; o+len(rec) <= len(c); o++ {
+				if (o == 0 || c[o-1] == '\n') && bytes.Equal(c[o:o+len(rec)], rec) {
+					cursor[n] = o + len(rec)
+					found = true
+					break
+				}
+			}
+			if found {
+				break
+			}
+		}
+		if !found {
+			missing = append(missing, string(b))
+		}
+	}
+	return missing
+}
+
 func vfE8LTree(root string) map[string][]byte {
 	res := map[string][]byte{}
 	for _, d := range []string{"w", "o"} {
@@ -352,6 +388,77 @@ func TestVerifToFileLinesChild(t *testing.T) {
 		r.stop()
 		c.ans(c.state("done", ""))
 		finish()
+	case "gen":
+		// generated class: random initial content (none / empty / terminated / torn), 1..4 messages whose bodies may be
+		// empty, contain "\n" or end in "\n"; plain append mode, optionally with --rotate-size
+		r0 := vfNewRand(uint64(7000 + vfEnvInt("VF_E8_LINES_GEN", 0)))
+		opts.FilenameFormat = "gen.log"
+		tmpl, file, hasRev := "gen.log", "gen.log", false
+		if r0.Intn(3) == 0 {
+			opts.RotateSize = 4096
+			opts.FilenameFormat = "gen<REV>.log"
+			tmpl, file, hasRev = "gen<REV>.log", "gen-000000.log", true
+		}
+		body := func() []byte {
+			switch r0.Intn(6) {
+			case 0:
+				return []byte{}
+			case 1:
+				return []byte("a\nb")
+			case 2:
+				return []byte("z\n")
+			default:
+				b := r0.Bytes(1 + r0.Intn(12))
+				for i := range b {
+					if b[i] == '\n' {
+						b[i] = 'n'
+					}
+				}
+				return b
+			}
+		}
+		var pre []byte
+		havePre, torn := true, false
+		switch r0.Intn(5) {
+		case 0:
+			havePre = false
+		case 1:
+			pre = []byte{}
+		case 2:
+			pre = append(body(), '\n')
+		case 3:
+			pre = []byte("q")
+			torn = true
+		default:
+			pre = append(append(body(), '\n'), []byte("tail")...)
+			torn = true
+		}
+		if havePre {
+			os.WriteFile(filepath.Join(root, "o", file), pre, 0o644)
+		}
+		f, err := vfE8LLogger(opts, "t")
+		if err != nil {
+			t.Fatal(err)
+		}
+		c.conf(opts.RotateSize, false, hasRev)
+		if havePre {
+			c.say(fmt.Sprintf("tf pre o %s 0 %s", vfHex([]byte(tmpl)), vfHex(pre)))
+			c.ans("ok")
+		}
+		c.note(fmt.Sprintf("torn=%v", torn))
+		r := vfE8LStart(f)
+		nm := 1 + r0.Intn(4)
+		for i := 0; i < nm; i++ {
+			b := body()
+			c.say(fmt.Sprintf("tf msg %d %s %d %s 0", i+1, vfHex(b), time.Now().UnixNano(), vfHex([]byte(f.currentFilename()))))
+			id := r.deliver(string(b))
+			c.fin(string(b))
+			c.ans(c.state("running", id))
+		}
+		c.say("tf termstop")
+		r.stop()
+		c.ans(c.state("done", ""))
+		finish()
 	case "kill1":
 		// run 1: "rec0" is written and FINished; the process then dies before the second Write call that
 		// follows (tree before fix F46: between the body of "bodyA" and its "\n")
@@ -448,9 +555,9 @@ func TestVerifToFileLinesChild(t *testing.T) {
 
 // ---------------------------------------------------------------- parent
 
-func vfE8LRunChild(root, name string) (exit string) {
+func vfE8LRunChild(root, name, geni string) (exit string) {
 	cmd := exec.Command("timeout", "-s", "KILL", "60", os.Args[0], "-test.run", "^TestVerifToFileLinesChild$", "-test.count=1", "-test.timeout=0")
-	cmd.Env = append(os.Environ(), "VF_E8_LINES_CASE="+name, "VF_E8_LINES_ROOT="+root)
+	cmd.Env = append(os.Environ(), "VF_E8_LINES_CASE="+name, "VF_E8_LINES_ROOT="+root, "VF_E8_LINES_GEN="+geni)
 	if ef, err := os.Create(filepath.Join(root, "stderr_"+name+".txt")); err == nil {
 		cmd.Stderr = ef
 		defer ef.Close()
@@ -476,10 +583,20 @@ func TestVerifToFileLines(t *testing.T) {
 	defer vo.Close()
 	fmt.Printf("LINESPROBE one_write=%d seals_tail=%d\n", vfE8LB(vfE8ProbeOneWrite()), vfE8LB(vfE8ProbeSealsTail()))
 	scenarios := [][]string{{"torn-pre"}, {"clean-pre"}, {"torn-pre-rotsize"}, {"torn-pre-workdir"}, {"torn-pre-1byte"}, {"kill1", "kill2"}, {"two-routers"}}
+	ngen := vfEnvInt("VERIF_N", 24)
+	for i := 0; i < ngen; i++ {
+		scenarios = append(scenarios, []string{fmt.Sprintf("gen:%d", i)})
+	}
 	for _, sc := range scenarios {
 		label := sc[0]
 		if label == "kill1" {
 			label = "kill-restart"
+		}
+		geni := ""
+		if strings.HasPrefix(label, "gen:") {
+			geni = label[4:]
+			label = "gen-" + geni
+			sc = []string{"gen"}
 		}
 		root := filepath.Join(out, "lines_"+label)
 		os.RemoveAll(root)
@@ -489,7 +606,7 @@ func TestVerifToFileLines(t *testing.T) {
 		var notes []string
 		complete := true
 		for _, child := range sc {
-			exits = append(exits, vfE8LRunChild(root, child))
+			exits = append(exits, vfE8LRunChild(root, child, geni))
 			raw, _ := os.ReadFile(filepath.Join(root, "res_"+child+".txt"))
 			var op string
 			ended := false
@@ -519,6 +636,9 @@ func TestVerifToFileLines(t *testing.T) {
 		}
 		tree := vfE8LTree(root)
 		missing := vfE8OwnLines(tree, fins)
+		if geni != "" {
+			missing = vfE8OwnRecords(tree, fins) // bodies may be empty / contain "\n": exact record form
+		}
 		var fb []string
 		for _, b := range fins {
 			fb = append(fb, string(b))
@@ -527,5 +647,5 @@ func TestVerifToFileLines(t *testing.T) {
 			vfHex([]byte(strings.Join(fb, ","))), len(missing) == 0, vfHex([]byte(strings.Join(missing, ","))),
 			vfHex([]byte(strings.Join(notes, ","))), vfE8LTreeLine(tree, true))
 	}
-	fmt.Printf("ORACLE-DONE lines cases=%d\n", len(scenarios))
+	fmt.Printf("ORACLE-DONE lines cases=%d generated=%d\n", len(scenarios), ngen)
 }
